@@ -19,7 +19,7 @@ P_impl       (i) the real converters on the spelling of a structured literal giv
              (ii) truncateIntValue = two's complement wrap; (iii) the reported known value of a constant expression = value of
              the C abstract machine for the platform (python reference evaluator).  The thorough tier validates the SPEC side
              (Lean literal values, reference evaluator, reference data models) against clang-14 static_assert probes / target macros.
-Findings     known_findings.d/C10.json (F5, F10b, F10c, F10h, F10i; fixed: F10d a4b8285, F10e 731a3b3, F10f bed3bd1, F10g 3fa1f26); witnesses in corpus/C10/cases.json
+Findings     known_findings.d/C10.json (F5, F10b, F10c, F10h, F10i, F10j, F10k; fixed: F10d a4b8285, F10e 731a3b3, F10f bed3bd1, F10g 3fa1f26); witnesses in corpus/C10/cases.json
 """
 import os, re, json, glob, subprocess
 import xml.etree.ElementTree as ET
@@ -33,13 +33,15 @@ RULE = ("cases = literal spellings (bases × digit runs around 2^7..2^64 × ever
         "(operator × operand type × boundary values × cast/const-variable/comparison form) per platform; "
         "non-trivial = the input is accepted by at least one classifier or reaches a conversion branch (not the "
         "generic invalid_argument path), resp. the program yields at least one known value")
-EXPLANATION = ("partial: the Lean theorems hold for every integer literal of the grammar (unbounded digit strings, all bases/suffixes/signs), "
-               "every well-formed character literal, truncateIntValue for all values/sizes, and the whole platform table extracted on this run; "
-               "tie = translator (tables decided whole on every run) + differential correspondence of every modelled function + CLI dump. "
-               "NOT modelled, only sampled through the CLI against a reference evaluator: folding of constant expressions "
-               "(findings F5, F10b, F10c live there), literal TYPE selection (F10d, fixed), casts; F10e/F10f are fixed and inside the model. Outside: floating literal VALUES "
-               "(classification only), raw UTF-8 in charlit_value (correspondence only), multi-character constants wider than the platform's int, "
-               "wide literals above the signed range of wchar_t.")
+EXPLANATION = ("partial: Lean theorems hold for every integer literal of the grammar (unbounded digit strings, all bases/suffixes) incl. the "
+               "composition spelling -> type (C09 litTypeCore) -> reported value (literal_value), every well-formed character literal, "
+               "truncateIntValue and castValue for all values/sizes, the unary folding branches (~ - !) on every platform shape, and the whole "
+               "platform table extracted on this run; tie = translator + differential correspondence of every modelled function + CLI dump "
+               "(literal, cast and unary-operator tokens compared with the model). "
+               "NOT modelled, only sampled through the CLI against a reference evaluator: folding of BINARY operators (findings F5, F10b, F10c), "
+               "floating literal values (F10k) and boolean literals, literal type selection beyond what C09 proves. Findings on platform files / "
+               "casts: F10h, F10i, F10j. Outside: raw UTF-8 in charlit_value (correspondence only), multi-character constants wider than the "
+               "platform's int, wide literals above the signed range of wchar_t.")
 THEOREMS = [
     "Cppcheck.C10.toBig_render", "Cppcheck.C10.toBigU_render", "Cppcheck.C10.toBig_rejects_overflow_partial",
     "Cppcheck.C10.toBig_rejects_overflow_counterexample", "Cppcheck.C10.toBig_bin_wraps",
